@@ -22,7 +22,7 @@ func init() {
 		Technique: "who-may-register census + value-origin taint from parameters to ServeMux registrations, dominance of the gate test, guarded metadata producers",
 		Explanation: "Decides on the current source: R1 every ServeMux.Handle/HandleIdx/HandleFunc call site in package sm registers either a built-in handler (result of a package-local constructor or a literal closure that invokes no handler) or a value converted to the gate type on every origin path, and the state machine's mux never escapes (it is only used as the receiver of ServeMux methods); " +
 			"R2 in the gate type's ServeDIAM the wrapped function is called exactly under the ok result of smpeer.FromContext(c.Context()) of the connection parameter (dominated by the ok edge and guarded by nothing else), and FromContext's ok is the comma-ok of a *Metadata type assertion on ctx.Value(metadataKey); " +
-			"R3 every smpeer.NewContext call in the library flows into Conn.SetContext and is dominated by the nil-error edge of a CER/CEA Parse call — and, on the server side, by the nil-error edge of the function that writes the success CEA; " +
+			"R3 every smpeer.NewContext call in the library flows into Conn.SetContext and is dominated by the nil-error edge of a CER/CEA Parse call — and, on the server side, by the nil-error edge of the function that writes the success CEA, and that function's error result after a failed (*Message).WriteTo* is the write's own error, a wrapper of it or a freshly constructed error — never a value that does not come from the write (a shadowed outer variable, a constant nil); " +
 			"R4 StateMachine.HandleFunc/HandleIdx cannot reach their registration for the keys CER, CEA, DWR / (0,257,R), (0,257,A), (0,280,R). " +
 			"R5 the state machine's own ServeDIAM hands every message, with the same connection and message, to its mux on every path (no message is answered or dropped in front of the gate). R3 is decided at the call sites that supply the values when the construction is wrapped in helpers (parameters lifted to their only library call site). " +
 			"R1 also: a gate value that is converted on to another func type (ServeMux.HandleFunc takes a HandlerFunc) has lost the gate's ServeDIAM and counts as not gated. " +
@@ -674,7 +674,13 @@ func runC10(c *Ctx) {
 						r.Fail("R3", key, c.pos(setAt), "metadata is stored although writing the success CEA failed", c.witness(p)...)
 						return
 					}
-					r.Ok("R3", key, c.pos(setAt), "stored with SetContext only after CER.Parse succeeded and the success CEA was written without error")
+					if g := flow.StaticCallee(writer); g != nil && g.Blocks != nil {
+						if ret, w := c.writerSwallowsWriteError(g); ret != nil {
+							r.Fail("R3", key, c.pos(ret), fmt.Sprintf("%s can return an error value that does not come from its message write at %s after that write failed: the caller stores the handshake metadata although no success CEA was delivered", fname(g), c.pos(w)))
+							return
+						}
+					}
+					r.Ok("R3", key, c.pos(setAt), "stored with SetContext only after CER.Parse succeeded and the success CEA was written without error (the writer returns the write's own error or a freshly constructed one whenever the write failed)")
 				} else {
 					r.Ok("R3", key, c.pos(setAt), "stored with SetContext only on the nil-error edge of CEA.Parse")
 				}
@@ -1094,4 +1100,114 @@ func contextIsOfConn(ctx, conn ssa.Value) bool {
 	}
 	ac, ok := ctx.(*ssa.Call)
 	return ok && ac.Call.IsInvoke() && ac.Call.Method.Name() == "Context" && ac.Call.Value == conn
+}
+
+// writerSwallowsWriteError: g writes a message (a (*Message).WriteTo* call) and has a return, reachable after a failed
+// write, whose error result neither derives from that write's error nor is a freshly constructed error. It returns
+// the offending return and the write, or nil. A return that can only be reached over the nil-error edge of the
+// tested write error may return anything (the write succeeded there).
+func (c *Ctx) writerSwallowsWriteError(g *ssa.Function) (*ssa.Return, *ssa.Call) {
+	res := g.Signature.Results()
+	idx := -1
+	for i := 0; i < res.Len(); i++ {
+		if isErrorType(res.At(i).Type()) {
+			idx = i
+		}
+	}
+	if idx < 0 {
+		return nil, nil
+	}
+	for _, ci := range flow.CallInstrs(g) {
+		w, ok := ci.(*ssa.Call)
+		if !ok {
+			continue
+		}
+		o := flow.CalleeObj(w)
+		if o == nil || flow.RecvTypeName(o.Type().(*types.Signature)) != "Message" || !strings.HasPrefix(o.Name(), "WriteTo") {
+			continue
+		}
+		werr := errorResult(w)
+		if werr == nil {
+			continue
+		}
+		tested := errEdgeTested(w)
+		for _, b := range g.Blocks {
+			if len(b.Instrs) == 0 {
+				continue
+			}
+			ret, ok := b.Instrs[len(b.Instrs)-1].(*ssa.Return)
+			if !ok || idx >= len(ret.Results) {
+				continue
+			}
+			if flow.PathAvoiding(g, w, func(in ssa.Instruction) bool { return in == ssa.Instruction(ret) }, nil) == nil {
+				continue
+			}
+			if tested && pathFromErrEdge(g, w, ret) == nil {
+				continue
+			}
+			if !errCarries(ret.Results[idx], w, map[ssa.Value]bool{}, 0) {
+				return ret, w
+			}
+		}
+	}
+	return nil, nil
+}
+
+// errCarries: v is, on every merge input, either derived from call w's results (directly, wrapped by a call that
+// takes it as an argument, or moved through a local cell) or a freshly constructed error (a call into fmt / errors,
+// a concrete value converted to the interface).
+func errCarries(v ssa.Value, w *ssa.Call, seen map[ssa.Value]bool, depth int) bool {
+	if v == ssa.Value(w) {
+		return true
+	}
+	if seen[v] || depth > 12 {
+		return seen[v]
+	}
+	seen[v] = true
+	switch x := v.(type) {
+	case *ssa.Extract:
+		return x.Tuple == ssa.Value(w)
+	case *ssa.Phi:
+		for _, e := range x.Edges {
+			if !errCarries(e, w, seen, depth+1) {
+				return false
+			}
+		}
+		return len(x.Edges) > 0
+	case *ssa.MakeInterface:
+		return true
+	case *ssa.ChangeInterface:
+		return errCarries(x.X, w, seen, depth+1)
+	case *ssa.ChangeType:
+		return errCarries(x.X, w, seen, depth+1)
+	case *ssa.Call:
+		if f := flow.StaticCallee(x); f != nil && f.Pkg != nil {
+			if p := f.Pkg.Pkg.Path(); p == "fmt" || p == "errors" {
+				return true
+			}
+		}
+		for _, a := range x.Call.Args {
+			if isErrorType(a.Type()) && errCarries(a, w, seen, depth+1) {
+				return true
+			}
+		}
+		return false
+	case *ssa.UnOp:
+		if x.Op == token.MUL {
+			if _, ok := x.X.(*ssa.Alloc); ok {
+				srcs := flow.SpillSources(x)
+				if len(srcs) == 0 {
+					return false
+				}
+				// a cell is flow-insensitive here: accept when some stored value carries the write's error
+				for _, s := range srcs {
+					if s != v && errCarries(s, w, seen, depth+1) {
+						return true
+					}
+				}
+			}
+		}
+		return false
+	}
+	return false
 }
